@@ -2,6 +2,7 @@ import JominiModel.Model.TextReader
 import JominiModel.Spec.TextReader
 import JominiModel.Proofs.SwarReader
 import JominiModel.Proofs.TextReaderStream
+import JominiModel.Proofs.TextFault
 /-
 C09 (text): `skip_container`'s 8-bytes-at-a-time path is unobservable.
 `C09_*` theorems live here so that the coordinator can re-export them from Props/C09.lean.
@@ -607,5 +608,442 @@ theorem skipLoop_spec (n : Nat) : ∀ (r : Reader) (pos : Nat) (bom : Bom) (d : 
           | fuel => simp [shiftSS]
     | ub => right; rw [hs] at happ; simp only at happ; rw [happ]; trivial
     | fuel => right; rw [hs] at happ; simp only at happ; rw [happ]; trivial
+
+end Jomini.TextReader
+
+namespace Jomini.TextReader
+open Jomini Jomini.TextReader.Spec Jomini.TextReader.Swar
+
+/-! ### the bytewise reference against reading tokens and counting opens and closes -/
+
+/-- bytes the skipper's `None` state gives a meaning to -/
+def skipSpecial (x : UInt8) : Bool := x == 123 || x == 125 || x == 34 || x == 35
+
+/-- a token whose bytes the byte-level skipper reads the way the tokenizer does: an unquoted scalar (or `@[…]`) must not
+contain `{`, `}`, `"` or `#` -/
+def skipSafeTok : Token → Bool
+  | .unquoted b => b.all (fun x => !skipSpecial x)
+  | _ => true
+
+/-- **the reference the property names**: read tokens with the reference lexer and count opens and closes; the result is
+the offset (from the start of `d`) just after the close that brings the depth to 0.  `none`: the input ends first, a
+token is not skip-safe, or `n` tokens were not enough. -/
+def balancedSkip : Nat → Nat → Bom → Bytes → Int → Option Nat
+  | 0, _, _, _, _ => none
+  | n + 1, pos, bom, d, depth =>
+    match specStep (pos == 0) bom d with
+    | some (.tok adv t b') =>
+      if !skipSafeTok t then none
+      else
+        match t with
+        | .open_ => (balancedSkip n (pos + adv) b' (d.drop adv) (depth + 1)).map (· + adv)
+        | .close =>
+          if depth - 1 == 0 then some adv
+          else (balancedSkip n (pos + adv) b' (d.drop adv) (depth - 1)).map (· + adv)
+        | _ => (balancedSkip n (pos + adv) b' (d.drop adv) depth).map (· + adv)
+    | _ => none
+
+theorem skipRef_plain_run (l rest : Bytes) (depth : Int) (ptr : Nat) (h : ∀ x ∈ l, skipSpecial x = false) :
+    skipRef (l ++ rest) .none depth ptr = skipRef rest .none depth (ptr + l.length) := by
+  induction l generalizing ptr with
+  | nil => simp
+  | cons c l ih =>
+    have hc := h c (by simp)
+    simp only [skipSpecial, Bool.or_eq_false_iff] at hc
+    simp only [List.cons_append, skipRef_none_cons, hc.1.1.1, hc.1.1.2, hc.1.2, hc.2, Bool.false_eq_true, if_false]
+    rw [ih (ptr + 1) (fun x hx => h x (by simp [hx]))]
+    simp; congr 1; omega
+
+theorem skipRef_comment_run (a rest : Bytes) (depth : Int) (ptr : Nat) (ha : ∀ x ∈ a, (x == 10) = false) :
+    skipRef (a ++ 10 :: rest) .comment depth ptr = skipRef rest .none depth (ptr + a.length + 1) := by
+  induction a generalizing ptr with
+  | nil => simp [skipRef_comment_cons]
+  | cons c a ih =>
+    have hc := ha c (by simp)
+    simp only [List.cons_append, skipRef_comment_cons, hc, Bool.false_eq_true, if_false]
+    rw [ih (ptr + 1) (fun x hx => ha x (by simp [hx]))]
+    simp; congr 1; omega
+
+theorem blank_not_special (c : UInt8) (h : isBlank c = true) : skipSpecial c = false := by
+  unfold isBlank at h; unfold skipSpecial
+  simp only [Bool.or_eq_true, beq_iff_eq] at h
+  rcases h with (((h | h) | h) | h) | h <;> subst h <;> decide
+
+/-- what the tokenizer skips between tokens, the skipper passes in its `None` state at the same depth -/
+theorem Skips.skipRef {pos0 : Bool} {pre : Bytes} {i : Nat} {bom bom' : Bom} (h : Skips pos0 pre i bom bom')
+    (x : Bytes) (depth : Int) (ptr : Nat) :
+    TextReader.Spec.skipRef (pre ++ x) .none depth ptr = TextReader.Spec.skipRef x .none depth (ptr + pre.length) := by
+  induction h generalizing ptr with
+  | nil => simp
+  | @blank c pre i bom bom' hb _ ih =>
+    have hc := blank_not_special c hb
+    simp only [skipSpecial, Bool.or_eq_false_iff] at hc
+    simp only [List.cons_append, skipRef_none_cons, hc.1.1.1, hc.1.1.2, hc.1.2, hc.2, Bool.false_eq_true, if_false]
+    rw [ih]; simp; congr 1; omega
+  | @comment a pre i bom bom' ha _ ih =>
+    simp only [List.cons_append, skipRef_none_cons]
+    simp only [show ((35 : UInt8) == 123) = false by decide, show ((35 : UInt8) == 125) = false by decide,
+      show ((35 : UInt8) == 34) = false by decide, Bool.false_eq_true, if_false, beq_self_eq_true, if_true, List.append_assoc, List.cons_append]
+    rw [skipRef_comment_run a _ depth (ptr + 1) ha, ih]
+    simp; congr 1; omega
+  | @bom pre bom' _ _ ih =>
+    have := skipRef_plain_run [0xef, 0xbb, 0xbf] (pre ++ x) depth ptr (by intro y hy; simp at hy; rcases hy with rfl | rfl | rfl <;> decide)
+    simp only [List.cons_append, List.nil_append] at this
+    simp only [List.cons_append]
+    rw [this, ih]; simp; congr 1; omega
+
+/-- a quoted scalar: the skipper's `Quote` state finds the closing quote the tokenizer finds -/
+theorem skipRef_quoted (n0 : Nat) : ∀ (tl : Bytes) (n : Nat) (depth : Int) (ptr i : Nat), tl.length ≤ n0 →
+    quoteEnd tl i = some n →
+    skipRef tl .quote depth ptr = skipRef (tl.drop (n - i + 1)) .none depth (ptr + (n - i) + 1) := by
+  induction n0 with
+  | zero =>
+    intro tl n depth ptr i hl h
+    have : tl = [] := List.eq_nil_of_length_eq_zero (by omega)
+    subst this; simp [quoteEnd] at h
+  | succ n0 ih =>
+    intro tl n depth ptr i hl h
+    cases tl with
+    | nil => simp [quoteEnd] at h
+    | cons c rest =>
+      have hr : rest.length ≤ n0 := by simp at hl; omega
+      by_cases hc : (c == 92) = true
+      · rcases rest with _ | ⟨x, r⟩
+        · rw [quoteEnd_bs1 hc] at h; simp at h
+        · rw [quoteEnd_bs2 hc] at h
+          have hb := quoteEnd_bounds h
+          rcases r with _ | ⟨e, r'⟩
+          · simp [quoteEnd] at h
+          · rw [skipRef_quote_bs hc]
+            simp only
+            have := ih (e :: r') n depth (ptr + 2) (i + 2) (by simp at hr ⊢; omega) h
+            rw [this]
+            have e1 : n - i + 1 = (n - (i + 2) + 1) + 2 := by omega
+            have e2 : ptr + 2 + (n - (i + 2)) + 1 = ptr + (n - i) + 1 := by omega
+            rw [e1, e2]; rfl
+      · by_cases hq : (c != 34) = true
+        · rw [quoteEnd_other hc hq] at h
+          have hb := quoteEnd_bounds h
+          rw [skipRef_quote_other hc]
+          simp only [hq, if_true]
+          have := ih rest n depth (ptr + 1) (i + 1) hr h
+          rw [this]
+          have e1 : n - i + 1 = (n - (i + 1) + 1) + 1 := by omega
+          have e2 : ptr + 1 + (n - (i + 1)) + 1 = ptr + (n - i) + 1 := by omega
+          rw [e1, e2]; rfl
+        · rw [quoteEnd_quote hc hq] at h
+          simp only [Option.some.injEq] at h
+          subst h
+          rw [skipRef_quote_other hc]
+          simp only [hq, Bool.false_eq_true, if_false]
+          simp
+
+end Jomini.TextReader
+
+namespace Jomini.TextReader
+open Jomini Jomini.TextReader.Spec Jomini.TextReader.Swar
+
+/-- effect of one token on the skipper: continue on `rest` at offset `q` -/
+def stepResult (t : Token) (depth : Int) (rest : Bytes) (q : Nat) : SkipScan :=
+  match t with
+  | .open_ => skipRef rest .none (depth + 1) q
+  | .close => if depth - 1 == 0 then .done q else skipRef rest .none (depth - 1) q
+  | _ => skipRef rest .none depth q
+
+theorem skip_take (l : Bytes) (m : Nat) (depth : Int) (p : Nat) (hsafe : ∀ x ∈ l.take m, skipSpecial x = false) (hm : m ≤ l.length) :
+    skipRef l .none depth p = skipRef (l.drop m) .none depth (p + m) := by
+  have := skipRef_plain_run (l.take m) (l.drop m) depth p hsafe
+  rw [List.take_append_drop] at this
+  rw [this]; simp; congr 1; omega
+
+theorem unqTok_skip {c : UInt8} {tl : Bytes} {i adv : Nat} {t : Token} (depth : Int) (p : Nat)
+    (h : unqTok c tl i = .tok adv t) (hs : skipSafeTok t = true) :
+    i < adv ∧ adv ≤ i + 1 + tl.length ∧
+    skipRef (c :: tl) .none depth p = stepResult t depth ((c :: tl).drop (adv - i)) (p + (adv - i)) := by
+  unfold unqTok at h
+  cases hf : findIdx isBoundary tl 0 with
+  | none => rw [hf] at h; simp at h
+  | some k =>
+    rw [hf] at h
+    simp only [Scan.tok.injEq] at h
+    obtain ⟨rfl, rfl⟩ := h
+    have hb := findIdx_some_bounds hf
+    refine ⟨by omega, by omega, ?_⟩
+    simp only [skipSafeTok, List.all_eq_true, Bool.not_eq_true'] at hs
+    have e : i + 1 + k - i = 1 + k := by omega
+    rw [e]
+    simp only [stepResult]
+    exact skip_take (c :: tl) (1 + k) depth p hs (by simp; omega)
+
+theorem tokenAt_skip {c : UInt8} {tl : Bytes} {i adv : Nat} {t : Token} (depth : Int) (p : Nat)
+    (h : tokenAt c tl i = .tok adv t) (hs : skipSafeTok t = true) :
+    i < adv ∧ adv ≤ i + 1 + tl.length ∧
+    skipRef (c :: tl) .none depth p = stepResult t depth ((c :: tl).drop (adv - i)) (p + (adv - i)) := by
+  unfold tokenAt at h
+  split at h
+  · rename_i hc
+    simp only [Scan.tok.injEq] at h; obtain ⟨rfl, rfl⟩ := h
+    refine ⟨by omega, by omega, ?_⟩
+    simp [skipRef_none_cons, hc, stepResult]
+  split at h
+  · rename_i h1 hc
+    simp only [Scan.tok.injEq] at h; obtain ⟨rfl, rfl⟩ := h
+    refine ⟨by omega, by omega, ?_⟩
+    have h1' : (c == 123) = false := by simpa using h1
+    simp [skipRef_none_cons, h1', hc, stepResult]
+  split at h
+  · rename_i h1 h2 hc
+    unfold quoteTok at h
+    cases hq : quoteScan tl 0 with
+    | more _ _ => rw [hq] at h; simp at h
+    | closed n =>
+      rw [hq] at h
+      simp only [Scan.tok.injEq] at h; obtain ⟨rfl, rfl⟩ := h
+      have he := quoteScan_closed hq
+      have hb := quoteEnd_bounds he
+      refine ⟨by omega, by omega, ?_⟩
+      have h1' : (c == 123) = false := by simpa using h1
+      have h2' : (c == 125) = false := by simpa using h2
+      simp only [skipRef_none_cons, h1', h2', hc, Bool.false_eq_true, if_false, if_true, stepResult]
+      rw [skipRef_quoted _ tl n depth (p + 1) 0 (Nat.le_refl _) he]
+      have e : i + 1 + n + 1 - i = (n + 1) + 1 := by omega
+      rw [e]
+      simp only [Nat.sub_zero, List.drop_succ_cons]
+      congr 1; omega
+  -- every remaining arm consumes bytes that are plain for the skipper
+  have hop2 : ∀ {a b : Op}, opTok2 a b tl i = .tok adv t → skipSpecial c = false →
+      i < adv ∧ adv ≤ i + 1 + tl.length ∧
+      skipRef (c :: tl) .none depth p = stepResult t depth ((c :: tl).drop (adv - i)) (p + (adv - i)) := by
+    intro a b h hc
+    unfold opTok2 at h
+    cases tl with
+    | nil => simp at h
+    | cons d r =>
+      simp only at h
+      split at h
+      · simp only [Scan.tok.injEq] at h; obtain ⟨rfl, rfl⟩ := h
+        refine ⟨by omega, by simp, ?_⟩
+        have e : i + 1 - i = 1 := by omega
+        rw [e]; simp only [stepResult]
+        exact skip_take (c :: d :: r) 1 depth p (by simp [hc]) (by simp)
+      · rename_i hd
+        simp only [Scan.tok.injEq] at h; obtain ⟨rfl, rfl⟩ := h
+        refine ⟨by omega, by simp; omega, ?_⟩
+        have e : i + 2 - i = 2 := by omega
+        rw [e]; simp only [stepResult]
+        have hd61 : d = 61 := by simpa using hd
+        exact skip_take (c :: d :: r) 2 depth p (by subst hd61; intro x hx; simp at hx; rcases hx with rfl | rfl; exact hc; decide) (by simp)
+  have hop1 : ∀ {o : Op}, opTok1 o tl i = .tok adv t → skipSpecial c = false →
+      i < adv ∧ adv ≤ i + 1 + tl.length ∧
+      skipRef (c :: tl) .none depth p = stepResult t depth ((c :: tl).drop (adv - i)) (p + (adv - i)) := by
+    intro o h hc
+    unfold opTok1 at h
+    cases tl with
+    | nil => simp at h
+    | cons d r =>
+      simp only at h
+      split at h
+      · rename_i hd
+        simp only [Scan.tok.injEq] at h; obtain ⟨rfl, rfl⟩ := h
+        refine ⟨by omega, by simp; omega, ?_⟩
+        have e : i + 2 - i = 2 := by omega
+        rw [e]; simp only [stepResult]
+        have hd61 : d = 61 := by simpa using hd
+        exact skip_take (c :: d :: r) 2 depth p (by subst hd61; intro x hx; simp at hx; rcases hx with rfl | rfl; exact hc; decide) (by simp)
+      · simp only [Scan.tok.injEq] at h; obtain ⟨rfl, rfl⟩ := h
+        refine ⟨by omega, by simp, ?_⟩
+        have e : i + 1 - i = 1 := by omega
+        rw [e]; simp only [stepResult]
+        exact skip_take (c :: d :: r) 1 depth p (by simp [hc]) (by simp)
+  split at h
+  · -- '@'
+    unfold atTok at h
+    cases tl with
+    | nil => simp at h
+    | cons d r =>
+      simp only at h
+      split at h
+      · cases hf : findIdx (· == 93) r 0 with
+        | none => rw [hf] at h; simp at h
+        | some k =>
+          rw [hf] at h
+          simp only [Scan.tok.injEq] at h; obtain ⟨rfl, rfl⟩ := h
+          have hb := findIdx_some_bounds hf
+          refine ⟨by omega, by simp; omega, ?_⟩
+          simp only [skipSafeTok, List.all_eq_true, Bool.not_eq_true'] at hs
+          have e : i + 2 + k + 1 - i = 2 + k + 1 := by omega
+          rw [e]; simp only [stepResult]
+          exact skip_take (c :: d :: r) (2 + k + 1) depth p hs (by simp; omega)
+      · exact unqTok_skip depth p h hs
+  split at h; · rename_i hc; exact hop2 h (by rw [eq_of_beq hc]; decide)
+  split at h; · rename_i hc; exact hop2 h (by rw [eq_of_beq hc]; decide)
+  split at h; · rename_i hc; exact hop1 h (by rw [eq_of_beq hc]; decide)
+  split at h; · rename_i hc; exact hop1 h (by rw [eq_of_beq hc]; decide)
+  split at h; · rename_i hc; exact hop2 h (by rw [eq_of_beq hc]; decide)
+  exact unqTok_skip depth p h hs
+
+end Jomini.TextReader
+
+namespace Jomini.TextReader
+open Jomini Jomini.TextReader.Spec Jomini.TextReader.Swar
+
+/-- the reference step sees a token start `c` after the skipped prefix `pre` -/
+theorem interp_token_skip {pre tl : Bytes} {c : UInt8} {bomR b' : Bom} {adv : Nat} {t : Token} (depth : Int)
+    (h35 : (c == 35) = false)
+    (h : interp (pre ++ c :: tl) (bomR, tokenAt c tl pre.length) = some (.tok adv t b'))
+    (hs : skipSafeTok t = true) :
+    skipRef (c :: tl) .none depth pre.length = stepResult t depth ((pre ++ c :: tl).drop adv) adv := by
+  have hlen : (pre ++ c :: tl).length = pre.length + 1 + tl.length := by simp; omega
+  cases htok : tokenAt c tl pre.length with
+  | bomFill => exact absurd htok (tokenAt_not_bomFill _ _ _)
+  | tok adv' t' =>
+    rw [htok] at h
+    simp only [interp, Option.some.injEq, Step1.tok.injEq] at h
+    obtain ⟨rfl, rfl, _⟩ := h
+    obtain ⟨h1, h2, h3⟩ := tokenAt_skip depth pre.length htok hs
+    rw [h3]
+    have e1 : pre.length + (adv' - pre.length) = adv' := by omega
+    have e2 : (pre ++ c :: tl).drop adv' = (c :: tl).drop (adv' - pre.length) := by
+      rw [List.drop_append]; simp; omega
+    rw [e1, e2]
+  | refill st carry off =>
+    rw [htok] at h
+    rcases tokenAt_refill htok with ⟨rfl, hc, _⟩ | ⟨rfl, _, _⟩ | ⟨rfl, _, hc, _, _⟩
+    · exfalso
+      subst hc
+      simp only [interp] at h
+      have hne : (tl.length + 1 == 0) = false := by simp
+      simp only [hne, Bool.false_eq_true, if_false] at h
+      have hd : (pre ++ c :: tl).drop ((pre ++ c :: tl).length - (tl.length + 1)) = c :: tl := by
+        rw [hlen]; have : pre.length + 1 + tl.length - (tl.length + 1) = pre.length := by omega
+        rw [this]; simp
+      rw [hd] at h
+      simp [h35] at h
+    · simp [interp] at h
+    · subst hc
+      simp only [interp, Option.some.injEq, Step1.tok.injEq] at h
+      obtain ⟨rfl, rfl, _⟩ := h
+      have hd : (pre ++ c :: tl).drop ((pre ++ c :: tl).length - (tl.length + 1)) = c :: tl := by
+        rw [hlen]; have : pre.length + 1 + tl.length - (tl.length + 1) = pre.length := by omega
+        rw [this]; simp
+      rw [hd] at hs ⊢
+      simp only [skipSafeTok, List.all_eq_true, Bool.not_eq_true'] at hs
+      simp only [stepResult, List.drop_length]
+      have := skip_take (c :: tl) (c :: tl).length depth pre.length (by rw [List.take_length]; exact hs) (Nat.le_refl _)
+      rw [this, hlen]; simp; congr 1; omega
+
+/-- **one token, the tokenizer's view and the skipper's view**: if the reference step reads the skip-safe token `t`
+consuming `adv` bytes, the bytewise skipper passes exactly those bytes and has counted `t`. -/
+theorem specStep_skip {pos0 : Bool} {bom b' : Bom} {d : Bytes} {adv : Nat} {t : Token} (depth : Int)
+    (h : specStep pos0 bom d = some (.tok adv t b')) (hs : skipSafeTok t = true) :
+    skipRef d .none depth 0 = stepResult t depth (d.drop adv) adv := by
+  obtain ⟨pre, tail, bom_s, rfl, hsk, ht⟩ := decompose pos0 d.length d 0 bom (Nat.le_refl _)
+  simp only [Nat.zero_add] at ht
+  rw [hsk.skipRef, Nat.zero_add]
+  unfold specStep at h
+  rw [hsk.fbLoop, Nat.zero_add] at h
+  rcases fbLoop_tail ht with ⟨rfl, h1⟩ | ⟨a, rfl, h1⟩ | ⟨c, tl, bomR, rfl, h35, _, h1⟩ | ⟨tl, rfl, hlt, hbc, h1⟩
+  · rw [h1] at h; simp [interp] at h
+  · rw [h1] at h
+    simp only [interp] at h
+    have hne : ((35 :: a).length == 0) = false := by simp
+    simp only [hne, Bool.false_eq_true, if_false] at h
+    have hd : (pre ++ 35 :: a).drop ((pre ++ 35 :: a).length - (35 :: a).length) = 35 :: a := by simp
+    rw [hd] at h
+    simp at h
+  · have h1' := h1 []
+    simp only [List.append_nil] at h1'
+    rw [h1'] at h
+    have hnb := tokenAt_not_bomFill c tl pre.length
+    have h' : interp (pre ++ c :: tl) (bomR, tokenAt c tl pre.length) = some (.tok adv t b') := by
+      cases htk : tokenAt c tl pre.length with
+      | bomFill => exact absurd htk hnb
+      | tok _ _ => rw [htk] at h; exact h
+      | refill _ _ _ => rw [htk] at h; exact h
+    exact interp_token_skip depth h35 h' hs
+  · -- fewer than three bytes starting with 0xEF: not a BOM, the scan with the BOM ruled out decides
+    obtain ⟨_, hbu, hj, hp⟩ := hbc
+    have hpre : pre = [] := List.eq_nil_of_length_eq_zero hj
+    subst hpre
+    rw [h1] at h
+    simp only [List.nil_append] at h ⊢
+    have hnbc : ¬BomCheck pos0 0xef 0 .notPresent := by simp [BomCheck]
+    have hfN := fbLoop_token (pos0 := pos0) (r := tl) (j := 0) (bom := .notPresent) (c := 0xef) (by decide) (by decide) hnbc
+    rw [hfN] at h
+    have h' : interp (([] : Bytes) ++ 0xef :: tl) (bomAfter 0xef .notPresent, tokenAt 0xef tl ([] : Bytes).length) = some (.tok adv t b') := by
+      simpa using h
+    have := interp_token_skip (pre := []) depth (by decide) h' hs
+    simpa using this
+
+/-- **reading tokens and counting opens and closes = the bytewise skipper**: if token counting over skip-safe tokens
+finds the matching close and lands at offset `q`, the bytewise reference stops exactly there. -/
+theorem balancedSkip_skipRef (n : Nat) : ∀ (pos : Nat) (bom : Bom) (d : Bytes) (depth : Int) (q : Nat),
+    balancedSkip n pos bom d depth = some q → skipRef d .none depth 0 = .done q := by
+  induction n with
+  | zero => intro pos bom d depth q h; simp [balancedSkip] at h
+  | succ n ih =>
+    intro pos bom d depth q h
+    rw [balancedSkip] at h
+    cases hsp : specStep (pos == 0) bom d with
+    | none => rw [hsp] at h; simp at h
+    | some st =>
+      rw [hsp] at h
+      cases st with
+      | end_ _ => simp at h
+      | eof _ _ => simp at h
+      | tok adv t b' =>
+        simp only at h
+        by_cases hs : skipSafeTok t = true
+        · simp only [hs, Bool.not_true, Bool.false_eq_true, if_false] at h
+          rw [specStep_skip depth hsp hs]
+          have cont : ∀ depth', (balancedSkip n (pos + adv) b' (d.drop adv) depth').map (· + adv) = some q →
+              skipRef (d.drop adv) .none depth' adv = .done q := by
+            intro depth' hh
+            cases hb : balancedSkip n (pos + adv) b' (d.drop adv) depth' with
+            | none => rw [hb] at hh; simp at hh
+            | some q' =>
+              rw [hb] at hh
+              simp only [Option.map_some, Option.some.injEq] at hh
+              have := ih _ _ _ _ _ hb
+              have hsh := skipRef_shift adv _ (d.drop adv) .none depth' 0 (Nat.le_refl _)
+              simp only [Nat.zero_add] at hsh
+              rw [hsh, this]; simp [shiftSS, hh]
+          cases t with
+          | open_ => simp only [stepResult]; exact cont _ h
+          | close =>
+            simp only [stepResult]
+            by_cases hz : (depth - 1 == 0) = true
+            · simp only [hz, if_true, Option.some.injEq] at h ⊢; rw [h]
+            · simp only [hz, Bool.false_eq_true, if_false] at h ⊢; exact cont _ h
+          | op o => simp only [stepResult]; exact cont _ h
+          | unquoted b => simp only [stepResult]; exact cont _ h
+          | quoted b => simp only [stepResult]; exact cont _ h
+        · simp [hs] at h
+
+/-- **C09 (text), `skip_container` lands exactly after the matching close.**  Let the reader be related to the remaining
+input `d` (it has just returned the `Open` token), the schedule fault-free, the reader a slice reader or its buffer at
+least three bytes.  If reading tokens with the reference lexer and counting opens and closes — over skip-safe tokens:
+quoted scalars may contain anything (braces, escapes, `#`), comments may contain anything, unquoted scalars and `@[…]`
+contain no `{ } " #` — reaches the matching close at offset `q`, then `skip_container` succeeds and leaves the reader
+related to `d.drop q`, i.e. at exactly the token that follows the matching close, under every read schedule. -/
+theorem C09_text_skip (r : Reader) (pos : Nat) (bom : Bom) (d : Bytes) (n q fuel : Nat)
+    (hrel : Rel r pos bom d) (hnf : NoFaults r.src.sched) (hcap : r.cap = 0 ∨ 3 ≤ r.cap)
+    (hfuel : r.src.rest.length + 1 ≤ fuel)
+    (hbal : balancedSkip n pos bom d 1 = some q) :
+    ∃ r', skipContainer fuel r = .ok r' () ∧ Rel r' (pos + q) bom (d.drop q) := by
+  have href := balancedSkip_skipRef n pos bom d 1 q hbal
+  rcases skipLoop_spec _ r pos bom d .none 1 fuel (Nat.le_refl _) hrel hcap hfuel with ⟨r', hio⟩ | hok
+  · exfalso
+    have := skipLoop_inv NoFaults_closed fuel r .none 1 0 hnf
+    rw [hio] at this
+    exact this.2 rfl
+  · unfold SkipOut at hok
+    rw [href] at hok
+    obtain ⟨r', h1, h2, _⟩ := hok
+    exact ⟨r', h1, h2⟩
+
+-- `{ "}" #}\n b="\"}" } c` after the first Open: token counting and the skipper both land on ` c`
+example : balancedSkip 20 1 .unknown [32, 34, 125, 34, 32, 35, 125, 10, 32, 98, 61, 34, 92, 34, 125, 34, 32, 125, 32, 99] 1 = some 18 := by
+  decide +kernel
 
 end Jomini.TextReader
